@@ -23,6 +23,8 @@ FLAG_GROUPS = {
     "safety": [],
     # all default checks on, but without the per-assertion reachability SAT calls
     "full": ["--no-assertion-reach-checks"],
+    # safe code only: panics (assert/unwrap/index) and arithmetic overflow are checked, raw-pointer validity checks are off
+    "panic": ["--no-assertion-reach-checks", "--no-memory-safety-checks"],
     # functional obligations on the big movegen formulas (DESIGN 3.3)
     "func": ["--no-assertion-reach-checks", "--no-memory-safety-checks", "--no-overflow-checks"],
 }
@@ -175,6 +177,25 @@ def run_kani(ws, crate, harnesses, flags, jobs, timeout_s, out_json, logf, extra
                 p.wait()
                 break
     return p.returncode, time.time() - t0, " ".join(cmd)
+
+
+def run_verus(ob, logdir):
+    """Spec-level lemma file checked by Verus; one obligation per file."""
+    path = os.path.join(HERE, ob["file"])
+    t0 = time.time()
+    try:
+        p = subprocess.run(["verus", path, "--output-json", "--time"], stdout=subprocess.PIPE, stderr=subprocess.PIPE, timeout=ob.get("timeout", 600), cwd=logdir)
+        out = p.stdout.decode(errors="replace")
+        d = json.loads(out[out.index("{"):])
+        vr = d.get("verification-results", {})
+        ok = vr.get("success") and vr.get("errors", 1) == 0 and vr.get("verified", 0) > 0
+        st = {"runtime_decision_procedure_s": (d.get("times-ms", {}).get("smt", {}).get("total", 0) or 0) / 1000.0, "runtime_symex_s": 0}
+        r = {"status": "Success" if ok else "Failure", "duration_s": time.time() - t0, "checks_total": vr.get("verified", 0) + vr.get("errors", 0),
+             "failed": [] if ok else [{"description": "verus reported %s errors" % vr.get("errors"), "category": "verus"}], "other": [], "covers": [], "error": {}, "props": {"total_properties": vr.get("verified", 0)},
+             "cbmc_stats": st, "solver": "verus 0.2026.09.13 / z3"}
+        return r
+    except Exception as e:
+        return None
 
 
 def parse_export(out_json):
@@ -385,6 +406,14 @@ def main():
             key = (ob["crate"], ob.get("flags", "full"), ob.get("jobs_class", "n"))
             groups.setdefault(key, []).append(ob)
         for (crate, fg, jc), gobs in groups.items():
+            if crate == "__verus__":
+                for o in gobs:
+                    r = run_verus(o, logdir)
+                    verdict, reason, failing = classify(o, r)
+                    if verdict == "refuted":
+                        verdict, reason = "undecided", "verus did not verify the lemma file: " + reason
+                    results.append(dict(ob=o, verdict=verdict, reason=reason, r=r, cmd="verus %s" % o["file"], failing=[], flags=[]))
+                continue
             flags = FLAG_GROUPS[fg]
             tmo = max(o.get("timeout", 600) for o in gobs)
             mem = max(o.get("mem_gb", 3) for o in gobs)
@@ -513,7 +542,7 @@ def write_evidence(prop, tier, seed, results, wall, weave_stats, tools, errors, 
             "modular_stubs": o.get("stubs", []),
             "expect": o.get("expect", "pass"),
             "verdict": res.get("final", res["verdict"]), "kani_verdict": res["verdict"], "reason": res["reason"],
-            "backend": "kani 0.68.0 / cbmc 6.11.0 / %s" % ((r or {}).get("solver") or "cadical"),
+            "backend": ((r or {}).get("solver") if o["crate"] == "__verus__" else "kani 0.68.0 / cbmc 6.11.0 / %s" % ((r or {}).get("solver") or "cadical")),
             "checks": r["checks_total"] if r else 0,
             "vccs_generated": st.get("vccs_generated"), "vccs_remaining": st.get("vccs_remaining"),
             "symex_s": st.get("runtime_symex_s"), "solver_s": st.get("runtime_decision_procedure_s"),
